@@ -1,6 +1,6 @@
 (* C08 — compact-size integers decode canonically and both decoders agree.
    Statements only; proofs are in Proofs/Len.v. *)
-From BS Require Import Impl.Leaf Spec.Wire Proofs.Len.
+From BS Require Import Impl.Leaf Spec.Wire Proofs.Len Ref.Grammar Proofs.CsDec Proofs.ErrSpec.
 Open Scope N_scope.
 
 (* the incremental decoder accepts exactly the inputs that start with the unique minimal
@@ -40,6 +40,21 @@ Theorem C08_slice_len_exact : forall l, len_consumed l + len_n l <= U64MAX -> le
 Proof. exact slice_len_exact. Qed.
 Theorem C08_slice_len_saturates : forall l, U64MAX < len_consumed l + len_n l -> len_slice_len l = U64MAX.
 Proof. exact slice_len_saturates. Qed.
+
+(* wider-than-necessary encodings are rejected as non-minimal, exactly these *)
+Theorem C08_rejects_nonminimal : forall s c c',
+  scan_len s c = (Err NonMinimalVarInt, c') <->
+  c' = c /\
+  ((exists v rest, bytes s = xfd :: le_enc 2 v ++ rest /\ v < 253) \/
+   (exists v rest, bytes s = xfe :: le_enc 4 v ++ rest /\ v <= 65535) \/
+   (exists v rest, bytes s = xff :: le_enc 8 v ++ rest /\ v <= 4294967295)).
+Proof. exact scan_len_nonminimal. Qed.
+
+(* too-short inputs are reported as needing more bytes, exactly when the streaming decoder runs out of input *)
+Theorem C08_too_short_needs_more : forall s c c',
+  scan_len s c = (Err MoreBytesNeeded, c') <->
+  c' = c /\ r_compact never (st0 0 (bytes s) []) = Fail MoreBytesNeeded [].
+Proof. exact scan_len_more. Qed.
 
 (* non-vacuity: a concrete 9-byte form at a large offset *)
 Example C08_example :
